@@ -83,8 +83,11 @@ func (k *ecKey) size() int { return (k.curve.Params().BitSize + 7) / 8 }
 
 func coord(r *rand.Rand, v *big.Int, size int, mode int) string {
 	pfx := "b:"
-	if r.Intn(5) == 0 {
+	switch r.Intn(8) {
+	case 0:
 		pfx = "bs:" // the named type key.ByteStr: accepted wherever GetBytes is used
+	case 1:
+		pfx = "bx:" // another named byte-slice type (reflection path of GetBytes)
 	}
 	switch mode {
 	case 0: // fixed length
@@ -174,7 +177,7 @@ func genCommonExtras(r *rand.Rand, alg int, opsChoices [][]int) []string {
 		e = append(e, "int:3", fmt.Sprintf("%s:%d", []string{"int", "alg", "i64"}[r.Intn(3)], alg))
 	}
 	if r.Intn(2) == 0 {
-		e = append(e, "int:2", "b:"+hx(randBytes(r, 1+r.Intn(8))))
+		e = append(e, "int:2", []string{"b:", "b:", "b:", "bs:", "bx:"}[r.Intn(5)]+hx(randBytes(r, 1+r.Intn(8))))
 	}
 	if r.Intn(3) == 0 {
 		if r.Intn(4) == 0 {
